@@ -678,7 +678,8 @@ impl<K, V> SmallMap<K, V> {
     /// Retain the capacity.
     #[inline]
     pub fn clear(&mut self) {
-        self.entries.clear();
+        // Clear the index first: if a destructor of an entry panics,
+        // the index must not refer to entries which are gone.
         if let Some(index) = &mut self.index {
             // Note we are keeping the `index` object initialized here.
             // So next insert will have to update the index.
@@ -686,6 +687,7 @@ impl<K, V> SmallMap<K, V> {
             // but `clear` is rare operation anyway.
             index.clear();
         }
+        self.entries.clear();
     }
 
     /// Basic check the map invariants are hold.
